@@ -44,8 +44,13 @@ def _lib():
     import virocon
     from virocon import distributions as D
 
+    import scipy.stats as sts
+
     class GammaScipy(D.ScipyDistribution):
         scipy_dist_name = "gamma"
+
+    class GumbelScipy(D.ScipyDistribution):  # the other documented declaration; a scipy law without shape parameters
+        scipy_dist = sts.gumbel_r
 
     fams = {
         "Weibull": D.WeibullDistribution,
@@ -55,6 +60,7 @@ def _lib():
         "GenGamma": D.GeneralizedGammaDistribution,
         "VonMises": D.VonMisesDistribution,
         "ScipyGamma": GammaScipy,
+        "ScipyGumbel": GumbelScipy,  # appended: the indices of the other carriers (`% 7` below) stay what they were
     }
     return virocon, fams
 
@@ -1495,7 +1501,7 @@ def main(ck):
     ck.rule = (
         "malformed stream: every malformation class of the property (model description 10 classes with variants, "
         "fit 7, slicer 3, HDC limits/deltas 4, non-finite points, non-2-D model, IFORM model type) injected at every "
-        "position of every hierarchy of 1-4 dimensions with each of the 7 families as carrier, singly; pairs "
+        "position of every hierarchy of 1-4 dimensions with each of the 8 families (6 shipped + two ScipyDistribution subclasses: gamma by scipy_dist_name, shape-less Gumbel by scipy_dist) as carrier, singly; pairs "
         + ("exhaustively for model descriptions" if thorough else "as a random sample")
         + "; every well-formed neighbour (the case with the malformation removed, plus accepted variations) is run "
         "too. A case is non-trivial if it is ill-formed or has >= 2 dimensions; distinct by SHA1 of the abstract case."
